@@ -142,6 +142,7 @@ Plan gen_plan(const std::string &prop, uint64_t verif_seed, long long run, long 
   Rng rng(seed_i);
   Plan p;
   std::string w = world_of(prop);
+  if (prop == "C20" && run % 4 == 3) w = "fs";   // the literal clause is decided in the file-store world
   if (w == "vm") p = gen_vm_plan(prop, rng, sub, tier);
   else if (w == "fs") p = gen_fs_plan(prop, rng, sub, tier);
   else p = gen_mt_plan(prop, rng, sub, tier);
